@@ -706,6 +706,13 @@ class Message:
         violated.
         """
 
+        try:
+            uri.encode("utf-8")
+        except UnicodeEncodeError as e:
+            # Lone surrogates, as they come out of os.fsdecode or sys.argv for
+            # bytes that are not UTF-8, can not go into any option
+            raise error.MalformedUrlError("URI is not encodable text") from e
+
         if any(c in uri for c in "\t\r\n") or (uri and uri[0] <= " "):
             # urllib would silently remove them
             raise error.MalformedUrlError(
